@@ -86,7 +86,8 @@ class Model:
     def init(self):
         if self.basename == "R3g":
             net = na.build({"base": "R3", "devs": [["gen", 2, 0.5, 1.01, "wide", False, True],
-                                                   ["load", 3, 0.8, 0.2, "P", 1., True]]})
+                                                   ["load", 3, 0.8, 0.2, "P", 1., True], ["sgen", 3, 0.3, 0.05, 1., True],
+                                                   ["gen", 2, 0.3, 1.01, "wide", False, True]]})
             net.bus["min_vm_pu"], net.bus["max_vm_pu"] = 0.9, 1.1
             net.gen["min_p_mw"], net.gen["max_p_mw"], net.gen["controllable"] = 0., 1., True
             pp.create_poly_cost(net, 0, "ext_grid", 2.)
@@ -134,6 +135,24 @@ class Model:
             if len(net.load) > 1:
                 net.load.drop(net.load.index[-1], inplace=True)
                 s["idx_changed"] = True
+        elif e == "replace_load":      # same number of loads, different index set (0,1 -> 0,2 -> 0,3 ...)
+            if len(net.load) > 1:
+                old = net.load.index[1]
+                row = net.load.loc[old]
+                net.load.drop(old, inplace=True)
+                pp.create_load(net, int(row.bus), float(row.p_mw) * 0.5, float(row.q_mvar), index=int(net.load.index.max()) + 1 if int(net.load.index.max()) >= old else old + 1)
+                s["idx_changed"] = True
+        elif e == "drop_all_sgen":     # an element table becomes empty
+            if len(net.sgen):
+                net.sgen.drop(net.sgen.index, inplace=True)
+                s["idx_changed"] = True
+        elif e == "slack_handover":    # the ext_grid goes out of service, a slack gen sharing its bus with an ordinary gen takes over
+            if net.ext_grid.in_service.any() and len(net.gen) >= 2:
+                net.ext_grid["in_service"] = False
+                net.gen.at[net.gen.index[-1], "slack"] = True
+            elif len(net.gen) >= 2:
+                net.ext_grid["in_service"] = True
+                net.gen.at[net.gen.index[-1], "slack"] = False
         elif e == "new_bus":
             if len(net.bus) < 6:
                 b = pp.create_bus(net, float(net.bus.vn_kv.iloc[-1]))
@@ -145,7 +164,7 @@ class Model:
                 net.trafo.at[0, "tap_pos"] = t
         else:
             raise ValueError(op)
-        if e == "gen_is":
+        if e in ("gen_is", "slack_handover"):
             switching = True
         # only switching / status edits move the network away from the switching state of the stored results
         s["since_pf"] = s["since_pf"] + (1 if switching else 0)
@@ -265,7 +284,8 @@ class Model:
 
 
 R3_EDITS = [["edit", "load_p"], ["edit", "line_is", 1], ["edit", "sw", 1], ["edit", "sw", 0], ["edit", "bus_is", 3],
-            ["edit", "gen_is"], ["edit", "eg_vm"], ["edit", "new_load"], ["edit", "drop_load"], ["edit", "new_bus"]]
+            ["edit", "gen_is"], ["edit", "eg_vm"], ["edit", "new_load"], ["edit", "drop_load"], ["edit", "new_bus"],
+            ["edit", "replace_load"], ["edit", "drop_all_sgen"], ["edit", "slack_handover"]]
 R3_CALCS = [["calc", c] for c in ("runpp", "runpp_nols", "runpp_init_results", "runpp_init_vmva", "rundcpp", "bfsw", "qlim",
                                   "runopp", "calc_sc", "runpp_3ph")]
 T3_EDITS = [["edit", "load_p"], ["edit", "sw", 1], ["edit", "sw", 0], ["edit", "tap", 1], ["edit", "tap", -1], ["edit", "eg_vm"],
